@@ -6,7 +6,7 @@
    allowed mechanisms, keyring, random source, user database, build flavour),
    over all byte chunks / write-out events [evs] and over all lines. *)
 From Coq Require Import ZArith.
-From DV Require Import Lib.Base Auth.Types Gen.AuthTables Auth.Sha1 Wire.Utf8 Auth.Server Auth.Transport Auth.Keyring Spec.AuthSpec Spec.KeyringSpec Proofs.AuthKeyring
+From DV Require Import Lib.Base Auth.Types Gen.AuthTables Auth.Sha1 Wire.Utf8 Auth.Server Auth.Transport Auth.Keyring Auth.Handover Wire.Message Spec.AuthSpec Spec.KeyringSpec Proofs.AuthKeyring Proofs.LoaderProofs Proofs.LoadLocal Proofs.AuthHandover
   Proofs.AuthInv Proofs.AuthBasics Proofs.AuthShape Proofs.AuthTrace Proofs.AuthChunk Proofs.AuthTransport Proofs.AuthLex Proofs.AuthRefine Proofs.AuthMain.
 Local Open Scope N_scope.
 
@@ -92,6 +92,27 @@ Theorem C08_transport_gate : forall te evs,
      (tr_recovered t = true -> tr_loader t = a_incoming (tr_auth t) ++ after).
 Proof. exact transport_gate. Qed.
 Print Assumptions C08_transport_gate.
+
+(* the handshake-to-message boundary (joins this package with the wire loader, Wire.Message): let hs be a complete
+   successful client handshake (fed in one piece the server model ends Authenticated with nothing left over, i.e. hs
+   ends with the BEGIN line).  For EVERY sequence of read / write / dispatch events -- every cutting of hs ++ msgs into
+   reads: inside BEGIN, right after it, inside the first message -- that has consumed hs ++ msgs and performed the
+   hand-over: the transport is authenticated with the protocol state and identity of the handshake, the auth object
+   interpreted exactly the lines of hs (no message byte was taken as a command), the loader received exactly msgs (no
+   handshake byte reached it) and its outcome (messages, corruption verdict) is that of feeding msgs in one piece. *)
+Theorem C08_handshake_boundary : forall te hs msgs a_hs evs,
+  run (t_env te) auth_init [Feed hs] = Some a_hs -> a_state (a_core a_hs) = Authenticated -> a_incoming a_hs = [] ->
+  let t := fst (xrun te xinit evs) in
+  let ld := snd (xrun te xinit evs) in
+  snd (trun te transport_init evs) = hs ++ msgs -> tr_recovered t = true ->
+  tr_authenticated t = true /\
+  a_core (tr_auth t) = a_core a_hs /\ get_identity (tr_auth t) = get_identity a_hs /\
+  admission te (get_identity a_hs) = true /\
+  (exists ls aevs rs, run (t_env te) auth_init aevs = Some (tr_auth t) /\ reach (t_env te) (fed aevs) ls rs (tr_auth t) /\ join_lines ls = hs) /\
+  tr_loader t = msgs /\
+  LoaderProofs.outcome ld = LoaderProofs.outcome (feed loader_new msgs 0).
+Proof. exact handshake_boundary. Qed.
+Print Assumptions C08_handshake_boundary.
 
 (* an identity without uid (ANONYMOUS) is admitted only where anonymous access is enabled *)
 Theorem C08_anonymous_only_if_enabled : forall te id, admission te id = true -> c_uid id = None -> t_allow_anonymous te = true.
@@ -217,4 +238,23 @@ Example ex_keyring_expired : (keyring_new (ex_world 1500), snd (get_best_key (ex
   = ([], Some 7, [48; 49; 48; 50; 48; 51]).
 Proof. vm_compute. reflexivity. Qed.
 Example ex_spec_line : spec_cookie_line [55; 32; 57; 57; 48; 32; 97; 97; 98; 98] = Some (7, 990%Z, [170; 187]).
+Proof. vm_compute. reflexivity. Qed.
+
+(* hand-over: "AUTH EXTERNAL 31303030 CRLF BEGIN CRLF" ++ 5 message bytes, cut inside BEGIN, right after BEGIN CRLF, inside
+   the message bytes, and not at all: always authenticated, recovered, and the loader input is exactly the 5 bytes *)
+Definition ex_tenv : tenv := mkTenv ex_env false (Some (fun u => N.eqb u 1000)).   (* the application's unix-user function admits uid 1000 *)
+Definition ex_hs : bytes := [65;85;84;72;32;69;88;84;69;82;78;65;76;32;51;49;51;48;51;48;51;48;13;10;66;69;71;73;78;13;10].
+Definition ex_msgs : bytes := [108; 1; 0; 1; 0].
+Definition ex_cut (n : nat) : list bytes := [firstn n (ex_hs ++ ex_msgs); skipn n (ex_hs ++ ex_msgs)].
+Definition ex_result (chunks : list bytes) :=
+  let '(t, consumed) := trun ex_tenv transport_init (drive chunks) in
+  (tr_authenticated t, tr_recovered t, tr_loader t, bytes_eqb consumed (ex_hs ++ ex_msgs)).
+Example ex_boundary_cuts :
+  map (fun n => ex_result (ex_cut n)) [0; 10; 24; 26; 29; 30; 31; 33; 36]%nat
+  = repeat (true, true, ex_msgs, true) 9.
+Proof. vm_compute. reflexivity. Qed.
+(* with the default admission rule instead (uid 1000 is neither root nor the server's own uid 0) the peer is disconnected *)
+Example ex_boundary_not_admitted :
+  let '(t, _) := trun (mkTenv ex_env false None) transport_init (drive (ex_cut 26)) in (tr_authenticated t, tr_disconnected t, tr_loader t)
+  = (false, true, []).
 Proof. vm_compute. reflexivity. Qed.
